@@ -222,7 +222,91 @@ func runC19(c *Ctx) {
 
 	// ---- R3 ----
 	c.c19ReadStream(rs)
+
+	// buffered bytes are copies: a stream buffer must not alias the caller's (reused) read buffer
+	nBuf := 0
+	for f := range reach {
+		if !c.P.IsLibrary(f) {
+			continue
+		}
+		for _, ci := range flow.CallInstrs(f) {
+			if !flow.IsCallTo(ci, "bytes", "", "NewBuffer") && !flow.IsCallTo(ci, "bytes", "", "NewBufferString") {
+				continue
+			}
+			nBuf++
+			key := fmt.Sprintf("%s:buffer-owns-its-bytes#%d", fname(f), nBuf)
+			aliased := ""
+			for _, o := range c.storageOrigins(ci.Common().Args[0]) {
+				if o.Kind != "make" && o.Kind != "string-copy" && o.Kind != "const" {
+					aliased = o.Kind + " " + o.Desc
+				}
+			}
+			r.Check(aliased == "", "R3", key, c.pos(ci), "the stream buffer is created over freshly allocated storage", "a stream buffer is created directly over bytes owned by someone else ("+aliased+"): the reader reuses that memory for the next receive, so another stream's buffered bytes are overwritten")
+		}
+	}
+
+	// ---- R5: heap maintenance ----
+	c.c19Heap(reach)
+
+	// ---- R4 ----
+	c.streamChain("R4")
 }
+
+// c19Heap: every read from / write to a buffered stream's bytes.Buffer on the read path is followed,
+// on every path to the unlock or return, by heap.Fix / heap.Push for that buffer (the stream
+// buffers live in a heap ordered by length; a stale position hides buffered messages).
+func (c *Ctx) c19Heap(reach map[*ssa.Function]bool) {
+	r := c.R
+	isHeapFix := func(in ssa.Instruction) bool {
+		ci, ok := in.(ssa.CallInstruction)
+		return ok && (flow.IsCallTo(ci, "container/heap", "", "Fix") || flow.IsCallTo(ci, "container/heap", "", "Push") || flow.IsCallTo(ci, "container/heap", "", "Init"))
+	}
+	n := 0
+	for f := range reach {
+		if !c.P.IsLibrary(f) || f.Signature.Recv() == nil || flow.RecvTypeName(f.Signature) != "SCTPConn" {
+			continue
+		}
+		for _, ci := range flow.CallInstrs(f) {
+			o := flow.CalleeObj(ci)
+			if o == nil || o.Pkg() == nil || o.Pkg().Path() != "bytes" || flow.RecvTypeName(o.Type().(*types.Signature)) != "Buffer" || (o.Name() != "Read" && o.Name() != "Write") {
+				continue
+			}
+			// receiver is the Buffer embedded in a streamBuffer
+			if tn, fld, _, ok := flow.FieldOf(ci.Common().Args[0]); !ok || tn != "streamBuffer" || fld != "Buffer" {
+				continue
+			}
+			n++
+			key := fmt.Sprintf("%s:heap-fixed-after-%s#%d", fname(f), o.Name(), n)
+			// Contradiction rule: where the code fixes the heap after this I/O on some path, it must do so on
+			// every path. An I/O that is never followed by a fix (the final Read of the pipe-through helper,
+			// whose branch needs a second reader to be reachable) expresses no such belief and is only noted.
+			if flow.PathAvoiding(f, ci, isHeapFix, nil) == nil {
+				r.Note("%s: %s on a stream buffer is not followed by heap.Fix on any path (%s)", fname(f), o.Name(), c.pos(ci))
+				r.Trivial("R5", key, c.pos(ci), "no heap fix follows on any path (no conditional maintenance to check)")
+				continue
+			}
+			p := flow.PathAvoiding(f, ci, func(in ssa.Instruction) bool { return flow.IsReturn(in) || isRunDefers(in) }, isHeapFix)
+			r.Check(p == nil, "R5", key, c.pos(ci), "every path after the buffer changed length passes heap.Fix / heap.Push before returning", "the heap position of a stream buffer is fixed after this I/O only on some paths: the longest-buffer-first heap goes stale and buffered messages of some stream are never delivered (or delivered after later ones)", c.witness(p)...)
+		}
+	}
+	if n == 0 {
+		r.Undecided("R5", "role:stream-buffer-io", "-", "no stream buffer reads/writes found on the read path")
+	}
+}
+
+func init() {
+	// extend the rule set texts (kept next to the rules they describe)
+	rs := Get("C19")
+	if rs != nil {
+		rs.Rules["R4"] = "replies: the stream travels unchanged with the bytes along the write chain (shared with C16 R2)"
+		rs.Rules["R5"] = "heap maintenance: heap.Fix/Push after every change of a stream buffer's length"
+		rs.MinInstances["R4"] = 4
+		rs.MinInstances["R5"] = 3
+		rs.Explanation = strings.Replace(rs.Explanation, "R4 replies: see C16 R2/R3 (answer's stream = request's stream, passed unchanged to WriteStream). ", "stream buffers are created over freshly allocated storage (never over the caller's reused read buffer); R4 along the write chain the stream number travels unchanged together with the bytes (shared clause with C16 R2); R5 wherever the code fixes a stream buffer's heap position after reading from / writing to it, it does so on every path (a conditional fix leaves the longest-first heap stale). ", 1)
+	}
+}
+
+func unusedC19() {}
 
 // valueReaches: v is target through phis.
 func valueReaches(v, target ssa.Value, d int) bool {
